@@ -20,9 +20,9 @@ import (
 // The outcome is recorded in the evidence (coverage.selftest) and printed; a missed mutant is a defect
 // of the checker, not a violation of the property, so it does not change the exit code.
 type selfTestResult struct {
-	Seed     string   `json:"seed"`
-	Result   string   `json:"result"` // detected | MISSED | skipped(<why>)
-	Failing  []string `json:"failing_obligations,omitempty"`
+	Seed    string   `json:"seed"`
+	Result  string   `json:"result"` // detected | MISSED | skipped(<why>)
+	Failing []string `json:"failing_obligations,omitempty"`
 }
 
 func selfTest(c *Ctx) []selfTestResult {
